@@ -206,6 +206,119 @@ def _aliasing_cases(nnx, jnp):
   return None
 
 
+def _output_aliasing_cases(nnx, jnp):
+  """what a scan / vmap body RETURNS must not alias an input Variable under a different axis specification."""
+  xs = jnp.arange(1.0, 5.0)
+
+  class Acc(nnx.Module):
+    def __init__(self):
+      self.n = nnx.BatchStat(jnp.asarray(0.0))
+
+  class Layer(nnx.Module):
+    def __init__(self, w):
+      self.w = nnx.Param(jnp.asarray(w, jnp.float32))
+
+  class Holder(nnx.Module):
+    def __init__(self, v):
+      self.v = v
+
+  def a():
+    def step(acc, x):
+      acc.n.value = acc.n.value + x
+      return acc, acc
+    return nnx.scan(step, in_axes=(nnx.Carry, 0), out_axes=(nnx.Carry, 0))(Acc(), xs)
+
+  def b():
+    def step(acc, x):
+      acc.n.value = acc.n.value + x
+      return acc, Holder(acc.n)
+    return nnx.scan(step, in_axes=(nnx.Carry, 0), out_axes=(nnx.Carry, 0))(Acc(), xs)
+
+  def c():
+    return nnx.scan(lambda m, x: Holder(m.w), in_axes=(0, 0), out_axes=1)(Layer(np.arange(8.0).reshape(4, 2)), xs)
+
+  def d():
+    return nnx.scan(lambda m, x: Holder(m.w), in_axes=(None, 0), out_axes=0)(Layer(np.arange(2.0)), xs)
+
+  def e():
+    return nnx.vmap(lambda m, x: Holder(m.w), in_axes=(0, 0), out_axes=1)(Layer(np.arange(8.0).reshape(4, 2)), xs)
+
+  def f():
+    return nnx.vmap(lambda m, x: Holder(m.w), in_axes=(None, 0), out_axes=0)(Layer(np.arange(2.0)), xs)
+  bad = []
+  for name, thunk in (('scan: Carry module also returned as axis-0 output', a), ('scan: Carry Variable held by an axis-0 output', b),
+                      ('scan: axis-0 Variable held by an out_axes=1 output', c), ('scan: broadcast Variable held by a stacked output', d),
+                      ('vmap: axis-0 Variable held by an out_axes=1 output', e), ('vmap: broadcast Variable held by a stacked output', f)):
+    try:
+      thunk()
+      bad.append(name)
+    except Exception:  # noqa  (any refusal counts as rejected)
+      pass
+  if bad:
+    return f'an output aliasing an input Variable under a different axis specification was accepted: {bad}'
+  # control: same axis on both sides is accepted and keeps identity of values
+  try:
+    m = Layer(np.arange(8.0).reshape(4, 2))
+    h = nnx.scan(lambda m, x: Holder(m.w), in_axes=(0, 0), out_axes=0)(m, xs)
+    if np.asarray(h.v.value).shape != (4, 2) or not np.allclose(np.asarray(h.v.value), np.arange(8.0).reshape(4, 2)):
+      return f'consistent input/output aliasing gives {np.asarray(h.v.value).tolist()}'
+  except Exception as ex:  # noqa
+    return f'consistent input/output aliasing was rejected: {ex!r}'[:200]
+  return None
+
+
+def _bare_variable_cases(nnx, jnp):
+  """Variables handed to vmap / grad directly or inside plain containers end in the state the reference leaves them in."""
+  import jax
+  N = 4
+  xs = jnp.arange(1.0, N + 1)
+  s0 = np.arange(N, dtype=np.float32) * 10
+  stat, total = nnx.BatchStat(jnp.asarray(s0)), nnx.BatchStat(jnp.asarray(5.0))
+
+  def f(stat, total, x):
+    stat.value = stat.value + x
+    total.value = total.value + 1.0
+    return stat.value * 2 + total.value
+  y = nnx.vmap(f, in_axes=(0, None, 0), out_axes=0)(stat, total, xs)
+  if not np.allclose(np.asarray(y), (s0 + np.asarray(xs)) * 2 + 6.0) or not np.allclose(np.asarray(stat.value), s0 + np.asarray(xs)) or not np.allclose(np.asarray(total.value), 6.0):
+    return dict(transform='vmap', arguments='bare Variables (axis 0, axis None)'), f'after the call the Variables hold {np.asarray(stat.value).tolist()} / {float(total.value)}; per-index updates give {(s0 + np.asarray(xs)).tolist()} / 6.0'
+  w0 = np.arange(N * 2, dtype=np.float32).reshape(N, 2)
+  params = {'w': nnx.Param(jnp.asarray(w0)), 'calls': nnx.BatchStat(jnp.zeros((N,)))}
+
+  def g(params, x):
+    params['calls'].value = params['calls'].value + 1
+    params['w'].value = params['w'].value * x
+    return params['w'].value.sum()
+  y = nnx.vmap(g, in_axes=({'w': 0, 'calls': 0}, 0), out_axes=0)(params, xs)
+  ref_w = w0 * np.asarray(xs)[:, None]
+  if not np.allclose(np.asarray(y), ref_w.sum(1)) or not np.allclose(np.asarray(params['w'].value), ref_w) or not np.allclose(np.asarray(params['calls'].value), 1.0):
+    return dict(transform='vmap', arguments='dict of Variables'), f"after the call w={np.asarray(params['w'].value).tolist()} calls={np.asarray(params['calls'].value).tolist()}; per-index updates give {ref_w.tolist()} / ones"
+  p, steps = nnx.Param(jnp.asarray(3.0)), nnx.BatchStat(jnp.asarray(0, jnp.int32))
+
+  def loss(p, steps, x):
+    steps.value = steps.value + 1
+    return (p.value * x) ** 2
+  for call in (1, 2):
+    gr = nnx.grad(loss)(p, steps, 2.0)
+    if not np.allclose(np.asarray(gr.value), 24.0) or float(p.value) != 3.0 or int(steps.value) != call:
+      return dict(transform='grad', arguments='bare Variables', call=call), f'gradient {np.asarray(gr.value)}, Param {float(p.value)}, forward counter {int(steps.value)} (want 24.0, 3.0, {call})'
+  params = {'w': nnx.Param(jnp.asarray([1.0, -2.0])), 'b': nnx.Param(jnp.asarray(0.5))}
+  stats = [nnx.BatchStat(jnp.asarray(0.0)), nnx.BatchStat(jnp.asarray(0, jnp.int32))]
+  x = jnp.asarray([3.0, 4.0])
+
+  def loss2(params, stats, x):
+    pre = (params['w'].value * x).sum() + params['b'].value
+    stats[0].value = 0.9 * stats[0].value + 0.1 * pre
+    stats[1].value = stats[1].value + 1
+    return pre ** 2, pre
+  (val, aux), grads = nnx.value_and_grad(loss2, argnums=0, has_aux=True)(params, stats, x)
+  pre = (np.asarray([1.0, -2.0]) * np.asarray(x)).sum() + 0.5
+  if not np.allclose(float(val), pre ** 2) or not np.allclose(np.asarray(grads['w'].value), 2 * pre * np.asarray(x)) or not np.allclose(float(stats[0].value), 0.1 * pre) or int(stats[1].value) != 1 \
+      or not np.allclose(np.asarray(params['w'].value), [1.0, -2.0]):
+    return dict(transform='value_and_grad', arguments='dict of Params + list of BatchStats', argnums=0), f'value {float(val)}, running mean {float(stats[0].value)}, counter {int(stats[1].value)} (want {pre ** 2}, {0.1 * pre}, 1)'
+  return None, None
+
+
 def run(tier, seed):
   from flax import nnx
   import jax.numpy as jnp
@@ -230,7 +343,7 @@ def run(tier, seed):
         fails.append(dict(inputs=dict(transform='vmap', axis=axis), observed=msg, violated='vmap-equals-stack'))
         break
   if not fails:
-    for fn, tag in ((_grad_case, 'grad-equals-jax-grad'), (_aliasing_cases, 'inconsistent-aliasing-rejected')):
+    for fn, tag in ((_grad_case, 'grad-equals-jax-grad'), (_aliasing_cases, 'inconsistent-aliasing-rejected'), (_output_aliasing_cases, 'inconsistent-aliasing-rejected')):
       cases += 1
       try:
         msg = fn(nnx, jnp)
@@ -255,7 +368,16 @@ def run(tier, seed):
       inp, msg = dict(check='grad-argnums'), f'raised {e!r}'[:300]
     if msg:
       fails.append(dict(inputs=inp, observed=msg, violated='grad-equals-jax-grad'))
-  return dict(name=NAME, cases=cases, distinct=cases, bound='scan: StateAxes axis in {0,1,2,-1} x reverse (decorator form); vmap: axis in {0,1,2,-1}; grad / value_and_grad x 11 argnums / DiffState configurations over 3 module arguments; 4 aliasing conflicts; scan Carry holding 2 / 3 modules of one class',
+  if not fails:
+    cases += 4
+    try:
+      r = _bare_variable_cases(nnx, jnp)
+      inp, msg = r if r else (None, None)
+    except Exception as e:  # noqa
+      inp, msg = dict(check='bare-variables'), f'raised {e!r}'[:300]
+    if msg:
+      fails.append(dict(inputs=inp, observed=msg, violated='side-effects-propagated'))
+  return dict(name=NAME, cases=cases, distinct=cases, bound='scan: StateAxes axis in {0,1,2,-1} x reverse (decorator form); vmap: axis in {0,1,2,-1}; grad / value_and_grad x 11 argnums / DiffState configurations over 3 module arguments; 4 input aliasing conflicts + 6 input/output aliasing conflicts; 4 programs over bare Variables / containers of Variables; scan Carry holding 2 / 3 modules of one class',
               failures=fails[:2], error=None)
 
 
